@@ -23,7 +23,7 @@ EXPLANATION = (
     "lazy views safe (BAM validate on read, BGZF seek offset bound)."
     " The indexing class K3 also covers std functions that assert a precondition on their arguments (Ord::clamp, step_by, div_euclid/rem_euclid, div_ceil, ilog*, from_digit), auto-discharged for constant arguments."
     " (L) no endless loop: every loop around fill_buf has an exit controlled by the emptiness of the window (an empty window is BufRead's only EOF signal; consume(0) changes nothing). (P) field bounds stay inside the buffer: a CR popped from a caller-provided buffer was read by the same call (count >= 2 guard) or every caller hands over an empty buffer (genuine defect F30, repaired)."
-    " (F) lazy cursor iterators built with iter::from_fn that yield io::Result reset their cursor on the error edge or are tabled as advancing before they can fail (genuine defect F34, repaired: the sam/bam data and sam cigar iterators yielded the same error for ever). (C) get_raw_cigar compares the CG array subtype before it hands out raw bytes (genuine defect F51, repaired). (A) no reader allocates up front for a 64-bit count from the file (F52, repaired). (U) a character count is never used as a byte offset into the same text (F54, repaired at three sites, the second found by this rule).")
+    " (F) lazy cursor iterators built with iter::from_fn that yield io::Result reset their cursor on the error edge or are tabled as advancing before they can fail (genuine defect F34, repaired: the sam/bam data and sam cigar iterators yielded the same error for ever). (C) get_raw_cigar compares the CG array subtype before it hands out raw bytes (genuine defect F51, repaired). (A) no reader allocates up front for a 64-bit count from the file (F52, repaired). (U) a character count is never used as a byte offset into the same text (F54, repaired at three sites, the second found by this rule). (S) the struct invariant Data.pos <= Data.len behind the BGZF block slices: every seek compares the in-block offset with the block length before it positions the cursor (shared with C02.R2).")
 ASSUMPTIONS = [
     "the baseline sites (K2/K3/K4 not auto-discharged) are undecided, not safe: the claim for them is 'nothing new'",
     "class-hierarchy analysis over-approximates dynamic dispatch (more obligations, never fewer); no fn-pointer fields exist in workspace ADTs",
@@ -240,6 +240,23 @@ def run(ctx):
     if not na64:
         ctx.ok("C15.A", "no with_capacity site is fed by a 64-bit file field", "%d site(s) fed by a 16/32-bit field counted" % na32)
     ctx.floor("C15.A", "with_capacity sites fed by a 16/32-bit file field (positive control of the data-flow matcher)", na32, 3)
+
+    # ---------------------------------------------------------------- the struct invariant behind the BGZF block slices
+    ctx.rule("C15.S", "A4 struct invariant Data.pos <= Data.len (the slices of the BGZF block data assume it): every seek that positions the "
+                      "in-block cursor from a file-provided offset (an index chunk, a gzi entry) does so only on the edge where the offset was "
+                      "compared with the loaded block's length — sync, multithreaded and the async helper (the rule of C02.R2, decided here "
+                      "for the 'never a panic' clause: a fast path that skips the comparison makes the next read_exact panic)")
+
+    def _len_cmp15(fn, ops, kind):
+        return any(R.derives_from_call(fn, o, R.mk_pred(r"io::block::data::Data::len$")) for o in ops)
+
+    def _nonconst_sp15(fn):
+        return [b for b, c in R.find_calls(fn, r"io::block::data::Data::set_position$") if C.eval_const(fn, c["args"][1]) is None]
+    for key15 in ("noodles_bgzf::io::reader::Reader::<R>::seek",
+                  "<noodles_bgzf::io::multithreaded_reader::MultithreadedReader<R> as noodles_bgzf::io::seek::Seek>::seek_to_virtual_position",
+                  "noodles_bgzf::r#async::io::reader::set_block_data_position"):
+        R.bound_guard(ctx, "C15.S", key15, "the in-block offset is compared with the block data length before set_position", _len_cmp15,
+                      protect=_nonconst_sp15)
 
     # ---------------------------------------------------------------- character counts are not byte offsets
     ctx.rule("C15.U", "a position counted in characters (Iterator::position over str::Chars) is never used as a byte offset into the same text "
